@@ -1173,3 +1173,15 @@ v("P-session-decodes-utf8-explicitly", [(SESS, "            msg = (await self._r
 v("final-callback-resets-server", [(SV, "    def _final_callback(self) -> None:\n        log.debug(\"Closed socket at %s:%s\", self._host, self._port)\n", "    def _final_callback(self) -> None:\n        self._server = None\n        log.debug(\"Closed socket at %s:%s\", self._host, self._port)\n")], {"C19": "R19.1"})
 v("annotation-looked-up-in-dict", [(PA, "    if any(annotation is t for t in (AnyCoroutineFunc, EndCB, CancelCB)):\n        annotation = resolve_dotted_path\n", "    if annotation in {AnyCoroutineFunc: 1, EndCB: 1, CancelCB: 1}:\n        annotation = resolve_dotted_path\n")], {"C16": "R16.3"})
 v("session-lock-around-commands", [(SV, "        self._server: AbstractServer | None = None\n", "        self._server: AbstractServer | None = None\n        self.command_lock: Lock = Lock()\n"), (SV, "from asyncio.exceptions import CancelledError\n", "from asyncio.exceptions import CancelledError\nfrom asyncio.locks import Lock\n"), (SESS, "        if isfunction(command):\n            await self._exec_method_and_respond(command, **kwargs)\n", "        if isfunction(command):\n            async with self._control_server.command_lock:\n                await self._exec_method_and_respond(command, **kwargs)\n")], {"C18": "alarm", "C19": "alarm"})
+
+# ---- batch 16 (rf153-rf160) and round 15
+v("P-dispatch-table-of-method-names", [], {"C18": "ok", "C17": "ok"}, base="rf157")
+v("dispatch-table-rows-swapped", [(SESS, "    (_is_method_command, \"_exec_method_and_respond\"),\n    (_is_property_command, \"_exec_property_and_respond\"),\n", "    (_is_method_command, \"_exec_property_and_respond\"),\n    (_is_property_command, \"_exec_method_and_respond\"),\n")], {"C17": "alarm"}, base="rf157")
+v("P-derived-kwargs-dictionary", [], {"C17": "ok", "C16": "ok"}, base="rf158")
+v("derived-kwargs-store-false", [(PA, "                derived_kwargs[\"action\"] = \"store_true\"\n", "                derived_kwargs[\"action\"] = \"store_false\"\n")], {"C17": "R17.3"}, base="rf158")
+v("session-parameter-named-like-a-pool-parameter", [(SESS, "        method: Callable[..., Any],\n        **kwargs: Any,\n    ) -> None:\n        \"\"\"\n        Takes a method, executes it", "        func: Callable[..., Any],\n        **kwargs: Any,\n    ) -> None:\n        \"\"\"\n        Takes a method, executes it"), (SESS, "            method.__name__,\n        )\n        normal_pos", "            func.__name__,\n        )\n        normal_pos"), (SESS, "        for param in signature(method).parameters.values():", "        for param in signature(func).parameters.values():"), (SESS, "            method, *normal_pos, *var_pos, **kwargs\n", "            func, *normal_pos, *var_pos, **kwargs\n")], {"C18": "R18.10", "C17": "R17.15"})
+v("close-clears-spawner-table-before-waiting", [(P, "        await gather(*self._meta_tasks_cancelled, return_exceptions=True)\n        await gather(\n            *not_cancelled_meta_tasks,", "        not_cancelled_meta_tasks = list(not_cancelled_meta_tasks)\n        self._group_meta_tasks_running.clear()\n        await gather(*self._meta_tasks_cancelled, return_exceptions=True)\n        await gather(\n            *not_cancelled_meta_tasks,")], {"C07": "R07.7", "C08": "alarm"})
+v("ending-shadows-its-task-id", [(P, "        self._enough_room.release()\n        log.info(\"Ended %s\", self._task_name(task_id))\n", "        self._enough_room.release()\n        for task_id in [i for i, t in self._tasks_cancelled.items() if t.done()]:\n            log.debug(\"%s\", task_id)\n        log.info(\"Ended %s\", self._task_name(task_id))\n")], {"C11": "R11.4"})
+v("omit-default-is-a-string", [(PA, "OMIT_PARAMS_DEFAULT = (\"self\",)\n", "OMIT_PARAMS_DEFAULT = \"self\"\n")], {"C16": "R16.8", "C17": "R17.10"})
+v("dispatch-executors-swapped", [(SESS, "        if isfunction(command):\n            await self._exec_method_and_respond(command, **kwargs)\n        elif isinstance(command, property):\n            await self._exec_property_and_respond(command, **kwargs)\n", "        if isfunction(command):\n            await self._exec_property_and_respond(command, **kwargs)\n        elif isinstance(command, property):\n            await self._exec_method_and_respond(command, **kwargs)\n")], {"C17": "alarm"})
+v("function-command-without-description", [(PA, "        subparser_kwargs.setdefault(\"help\", get_first_doc_line(function))\n        subparser_kwargs.setdefault(\"description\", subparser_kwargs[\"help\"])\n", "        subparser_kwargs.setdefault(\"help\", get_first_doc_line(function))\n")], {"C16": "R16.2"})
